@@ -151,7 +151,7 @@ OPEN_RULES = {'IntactOpenSucceeds','OpenLinkCount','OpenLinkTable','OpenLinkLeng
 SAFETY_RULES = {'NoCrash','CallsTerminate','LibraryNeverExits','UnknownEvent'}
 CLEAR_RULES = {'ClearReturnsZero','ClearZeroesHandle','CloseRunsExactlyOnceAtClear','CloseOnlyForOpenedHandles','ClearReleasesEverything','NoCloseBehindCaller'}
 HR_RULES = {'HalfRateRefusedFor64','RefusalLeavesFullRate','RefusalKeepsPosition','HalfRateAccepted','HalfRateFlagTakesEffect','HalfRateKeepsPosition','HalfRateUndocumentedCode'}
-XL_RULES = {'CrosslapUndocumentedCode','CrosslapKeepsSecondPosition','CrosslapConsumesAtMostLap','CrosslapSucceeds'}
+XL_RULES = {'CrosslapUndocumentedCode','CrosslapKeepsSecondPosition','CrosslapConsumesAtMostLap','CrosslapSucceeds','LapBlendAsSpecified'}
 
 def files_for(tier, pool):
     return pool
